@@ -10,7 +10,12 @@ functional classes / proximal factories and from text-book convex analysis:
   uniform discretizations: product of the per-axis cell sizes, boundary cells
   being half cells for ``nodes_on_bdry``; product spaces: component weight
   times the weights of the component).  Points are flat float64 vectors, leaves
-  depth first, every leaf ravelled in C order.
+  depth first, every leaf ravelled in C order.  A complex leaf is real-ified:
+  every entry becomes the pair (re, im) and carries its weight twice, so
+  that ``sum_k W_k v_k^2`` is the squared norm and ``sum_k W_k a_k b_k`` the
+  real part of the inner product; the modulus of an entry (`RSpace.mod`) is
+  the Euclidean length of its pair.  All "pointwise |x|" formulas below are
+  written on `RSpace.mod` / `RSpace.Wp` (weights per point).
 * `RFunc` nodes evaluate the documented value of a functional at a flat
   vector (`ev` -> ``(value, magnitude)``, value ``inf`` outside the domain),
   know a *retraction* onto their domain (clip for boxes, rescale for balls,
@@ -125,7 +130,14 @@ class RSpace(object):
             self.slices = [slice(int(offs[i]), int(offs[i + 1]))
                            for i in range(n)]
             dts = set(p.dtype for p in self.parts)
-            self.dtype = 'float32' if 'float32' in dts else 'float64'
+            cp = set(p.cplx for p in self.parts)
+            if len(cp) > 1:
+                raise ValueError('reference: real and complex parts mixed')
+            self.cplx = bool(n) and cp == {True}
+            self.dtype = next((d for d in ('complex64', 'float32',
+                                           'complex128') if d in dts),
+                              'float64')
+            self.npoints = sum(p.npoints for p in self.parts)
             self.leafW = (np.concatenate([p.leafW for p in self.parts])
                           if n else np.zeros(0))
             self.W = (np.concatenate([self.pw[i] * p.W
@@ -143,11 +155,15 @@ class RSpace(object):
             self.pw = None
             self.pkind = '-'
             self.dtype = str(sd.get('dtype', 'float64'))
-            if self.dtype not in ('float32', 'float64'):
-                raise ValueError('reference: real float spaces only')
+            if self.dtype not in ('float32', 'float64', 'complex64',
+                                  'complex128'):
+                raise ValueError('reference: float / complex spaces only')
+            self.cplx = self.dtype.startswith('complex')
             self.shape = tuple(int(s) for s in sd['shape'])
-            self.size = int(np.prod(self.shape, dtype=int))
-            self.leafW = leaf_weights(sd).ravel().astype(float)
+            self.npoints = int(np.prod(self.shape, dtype=int))
+            self.size = self.npoints * (2 if self.cplx else 1)
+            lw = leaf_weights(sd).ravel().astype(float)
+            self.leafW = np.repeat(lw, 2) if self.cplx else lw
             self.W = self.leafW.copy()
             self.is_power = False
             self.slices = None
@@ -188,7 +204,29 @@ class RSpace(object):
     def region(self):
         return 'leaf={},prod={}{}'.format(
             self.leaf_kind(), self.prod_kind(),
-            ',dt=f32' if self.dtype == 'float32' else '')
+            {'float32': ',dt=f32', 'complex128': ',dt=c128',
+             'complex64': ',dt=c64'}.get(self.dtype, ''))
+
+    # entries ("points") of the space: one real number, or one (re, im) pair
+    @property
+    def Wp(self):
+        """Weight of every point (entry) of the space."""
+        return self.W[::2] if self.cplx else self.W
+
+    def mod(self, v):
+        """|x_i| for every point: absolute value / complex modulus."""
+        v = np.asarray(v, dtype=float)
+        if self.cplx:
+            c = v.reshape(-1, 2)
+            return np.hypot(c[:, 0], c[:, 1])
+        return np.abs(v)
+
+    def scale_points(self, v, fac):
+        """Multiply every point by its own real factor."""
+        fac = np.asarray(fac, dtype=float)
+        if self.cplx and fac.ndim:
+            fac = np.repeat(fac, 2)
+        return np.asarray(v, dtype=float) * fac
 
     def inner(self, a, b):
         return float(np.sum(self.W.astype(LD) * np.asarray(a, dtype=LD) *
@@ -315,15 +353,16 @@ class RLpNorm(RFunc):
         self.p = float(p)
 
     def ev(self, v, amb=0.0):
-        a = np.abs(v)
+        a = self.sp.mod(v)
+        W = self.sp.Wp
         if self.p == 1:
-            s = wsum(self.sp.W, a)
+            s = wsum(W, a)
         elif self.p == 2:
-            s = float(np.sqrt(LD(wsum(self.sp.W, a * a))))
+            s = float(np.sqrt(LD(wsum(W, a * a))))
         elif self.p == INF:
             s = float(a.max()) if a.size else 0.0
         else:
-            s = float(LD(wsum(self.sp.W, a ** self.p)) ** (1 / LD(self.p)))
+            s = float(LD(wsum(W, a ** self.p)) ** (1 / LD(self.p)))
         return s, abs(s)
 
 
@@ -346,12 +385,13 @@ def _power_parts(sp):
     if sp.parts is None or not sp.is_power or sp.parts[0].parts is not None:
         raise ValueError('reference: power space of leaves expected')
     n = len(sp.parts)
-    return n, sp.parts[0].size, sp.parts[0].W, sp.pw
+    return n, sp.parts[0].npoints, sp.parts[0].Wp, sp.pw
 
 
 def pointwise_norm(V, pw, p):
     """[sum_j pw_j |V_j|^p]^(1/p) per point; max_j pw_j |V_j| for p=inf
-    (documented formulas of PointwiseNorm with the product-space weights)."""
+    (documented formulas of PointwiseNorm with the product-space weights).
+    ``V``: (components, points) array of the moduli |V_j(t)|."""
     A = np.abs(V)
     pw = np.asarray(pw, dtype=float).reshape(-1, 1)
     if p == 1:
@@ -370,7 +410,7 @@ class RGroupL1(RFunc):
         self.n, self.m, self.c, self.pw = _power_parts(sp)
 
     def ev(self, v, amb=0.0):
-        pn = pointwise_norm(np.asarray(v).reshape(self.n, self.m), self.pw,
+        pn = pointwise_norm(self.sp.mod(v).reshape(self.n, self.m), self.pw,
                             self.p)
         s = wsum(self.c, pn)
         return s, abs(s)
@@ -391,17 +431,17 @@ class RHuber(RFunc):
         self.gamma = float(gamma)
         if sp.parts is None:
             self.vec = False
-            self.c = sp.W
+            self.c = sp.Wp
         else:
             self.vec = True
             self.n, self.m, self.c, self.pw = _power_parts(sp)
 
     def ev(self, v, amb=0.0):
         if self.vec:
-            t = pointwise_norm(np.asarray(v).reshape(self.n, self.m),
+            t = pointwise_norm(self.sp.mod(v).reshape(self.n, self.m),
                                self.pw, 2.0)
         else:
-            t = np.abs(v)
+            t = self.sp.mod(v)
         s = wsum(self.c, huber_scalar(t, self.gamma))
         return s, abs(s) + self.gamma * wsum(self.c, np.ones_like(t)) * 0.5
 
@@ -517,8 +557,13 @@ class RIndLpBall(RIndicator):
 
     def retract(self, v):
         v = np.array(v, dtype=float)
-        if self.p == INF:
+        if self.p == INF and not self.sp.cplx:
             return np.clip(v, -self.r, self.r)
+        if self.p == INF:
+            a = self.sp.mod(v)
+            return self.sp.scale_points(
+                v, np.where(a > self.r, self.r / np.where(a > 0, a, 1.0),
+                            1.0))
         nv = self.norm.value(v)
         if nv > self.r:
             v = v * (self.r / nv)
@@ -543,8 +588,8 @@ class RIndGroupBall(RIndicator):
         self.n, self.m, self.c, self.pw = _power_parts(sp)
 
     def _pn(self, v):
-        return pointwise_norm(np.asarray(v).reshape(self.n, self.m), self.pw,
-                              self.p)
+        return pointwise_norm(self.sp.mod(v).reshape(self.n, self.m),
+                              self.pw, self.p)
 
     def excess(self, v, amb=0.0):
         pn = self._pn(v)
@@ -552,13 +597,17 @@ class RIndGroupBall(RIndicator):
         return mx - self.r, _tol(self.n, max(mx, self.r, amb))
 
     def retract(self, v):
-        V = np.array(v, dtype=float).reshape(self.n, self.m)
+        v = np.array(v, dtype=float)
         if self.p == INF:
             lim = (self.r / self.pw).reshape(-1, 1)
-            return np.clip(V, -lim, lim).ravel()
+            if not self.sp.cplx:
+                return np.clip(v.reshape(self.n, self.m), -lim, lim).ravel()
+            a = self.sp.mod(v).reshape(self.n, self.m)
+            fac = np.where(a > lim, lim / np.where(a > 0, a, 1.0), 1.0)
+            return self.sp.scale_points(v, fac.ravel())
         pn = self._pn(v)
         fac = np.where(pn > self.r, self.r / np.where(pn > 0, pn, 1.0), 1.0)
-        return (V * fac.reshape(1, -1)).ravel()
+        return self.sp.scale_points(v, np.tile(fac, self.n))
 
     def typ(self):
         return self.r / max(float(np.mean(self.pw)) * np.sqrt(self.n), 1e-300)
